@@ -1,7 +1,16 @@
 """C02 - queue family check (see lib/queuefam.py) + the state machine tied to the Go sources by translation
-(translate/transitions.go -> coq/Gen/Transitions.v, Properties/C02trans.v, lib/c02trans.py)."""
+(translate/transitions.go -> coq/Gen/Transitions.v, Properties/C02trans.v, lib/c02trans.py) + two processes on one SQLite file."""
 from lib import c02trans, queuefam
 
 
+def extra(ctx, info, rng, fam, hs):
+    cov = c02trans.run(ctx, info, rng, fam, hs) or {}
+    # leased -> queued only by nack or lease expiry: a late lease operation of one process must not put back a message another process
+    # has just been handed under a running lease (lib/twostores.py, also run from C03 and C04)
+    from lib import twostores
+    cov.update(twostores.run_relet(ctx, info))
+    return cov
+
+
 def main(ctx, replay):
-    return queuefam.run_property(ctx, "C02", 150, 3000, extra=c02trans.run, extra_prop_files=("C02trans",))
+    return queuefam.run_property(ctx, "C02", 150, 3000, extra=extra, extra_prop_files=("C02trans",))
